@@ -193,4 +193,8 @@ def run(chk, ctx):
     from . import round4
     round4.cancelled_wait_reports_canceller(chk, ctx)
     round4.failed_fanout_torn_down(chk, ctx)
+    round4.deferred_delegates_cancellable(chk, ctx)
+    round4.gate_walks_whole_stack(chk, ctx)
+    round4.gate_index_default(chk, ctx)
+    round4.teardown_scoped_to_terminated_groups(chk, ctx)
     chk.assume("given the decided clauses, whether a late sibling can still disturb the outcome depends on delivery order (not decided)")
